@@ -497,6 +497,7 @@ fn pos_of(a: &marginfi_type_crate::types::MarginfiAccount, bank: &Pubkey) -> (i1
 impl Runner {
     pub fn build(case: &VCase) -> Result<Runner, String> {
         vs::set_math_mode(if case.exact { vs::MathMode::Wad } else { vs::MathMode::Mocks });
+        vd::set_follow_mocks(!case.exact);
         let mut spec = WorldSpec::default();
         spec.banks = case.ord.iter().map(ord_bank_spec).collect();
         spec.n_users = 5;
@@ -2218,7 +2219,7 @@ pub fn run_case(case: &VCase, fam: &str, st: &mut Stats) -> Result<(), (String, 
 }
 
 pub fn rule(pid: &str) -> String {
-    let common = "venue campaign (stateful proptest): generated worlds of 1-2 ordinary banks (bank 0 borrowable, funded by a lender) and 1-3 (one tenth / for C16 three eighths: 9-10) venue banks of generated kinds Kamino / Solend / Drift (decimals 6/8/9 - Drift mints of >= 10 decimals are excluded by construction, known finding -, SPL / plain Token-2022, Pyth with EMA != spot or Switchboard, confidence 0-3 %, initial venue rate 1.0-1.6 with ragged fixed-point digits, reserve sizes 1e7-1e15, generated weights and deposit limits incl. tight ones), 3 users + liquidator + lender with distinct roles; sequences of 8-40 generated ops (venue deposit / withdraw with absolute, relative and boundary amounts, with or without the venue refresh instructions, signed by authority / other user / stranger / unsigned authority key / group admin; borrow / repay on bank 0 sized by the reference borrowing power; ordinary deposits; venue interest accrual; waiting (clock and slot advance, price feeds refreshed, venue accounts NOT); venue refresh; price and confidence moves; bank paused / reduce-only / operational; killed (doctored, counted); protocol pause with / without propagation; limits; classic liquidation; receivership brackets [refresh.., start, venue withdraw, repay, end]; freeze; distress (price solved for a maintenance health slightly below / above zero); disabling by transfer / bankruptcy) executed through marginfi::entry and the fake venue programs; three quarters of the cases with the venues converting as the mocks crates do, one quarter with exact floor arithmetic. ";
+    let common = "venue campaign (stateful proptest): generated worlds of 1-2 ordinary banks (bank 0 borrowable, funded by a lender) and 1-3 (one tenth / for C16 three eighths: 9-10) venue banks of generated kinds Kamino / Solend / Drift (decimals 6/8/9 - Drift mints of >= 10 decimals are excluded by construction, known finding -, SPL / plain Token-2022, Pyth with EMA != spot or Switchboard, confidence 0-3 %, initial venue rate 1.0-1.6 with ragged fixed-point digits, reserve sizes 1e7-1e15, generated weights and deposit limits incl. tight ones), 3 users + liquidator + lender with distinct roles; sequences of 8-40 generated ops (venue deposit / withdraw with absolute, relative and boundary amounts, with or without the venue refresh instructions, signed by authority / other user / stranger / unsigned authority key / group admin; borrow / repay on bank 0 sized by the reference borrowing power; ordinary deposits; venue interest accrual; waiting (clock and slot advance, price feeds refreshed, venue accounts NOT); venue refresh; price and confidence moves; bank paused / reduce-only / operational; killed (doctored, counted); protocol pause with / without propagation; limits; classic liquidation; receivership brackets [refresh.., start, venue withdraw, repay, end]; freeze; distress (price solved for a maintenance health slightly below / above zero); disabling by transfer / bankruptcy) executed through marginfi::entry and the fake venue programs; three quarters of the cases with the venues converting as the mocks crates do (Kamino / Solend I80F48 rates; the Drift fake then calls drift_mocks' own get_scaled_balance_* helpers, i.e. it behaves exactly as marginfi's handlers predict), one quarter with exact floor arithmetic / Drift's own formulas. ";
     let own = match pid {
         "C02" => "C02 family: after every committed transaction, for every venue bank d(total_asset_shares) == sum over all accounts d(asset_shares) bit-exactly (a closure may leave the total above by < 0.0001 units), the total never below the sum, no liability shares in venue banks. Non-trivial = a case in which two accounts held the same venue bank and a venue withdraw succeeded.",
         "C03" => "C03 family: successful venue deposit: source token account moved by exactly `amount`, shares credited x EXACT venue rate <= amount (allowance: the derived bound of the mocks' I80F48 rate, ~1e-12 relative, + 4 ulp); successful venue withdraw (also `all`): tokens received <= shares removed x exact rate (same allowance; integer tokens, so `all` pays <= floor(value)); after every committed transaction (venue position - booked shares) never decreases. Non-trivial = a successful venue deposit or withdraw of a positive amount at a venue rate != 1.",
